@@ -126,6 +126,12 @@ func genC13(ctx *hx.Ctx, emit0 func(hx.Case)) {
 				c["ctype"] = "application/json;charset=UTF-8"
 			}
 		}
+		// a body text that is not what the JSON encoder would write (leading blank): a re-encoding shows in the bytes
+		if bt, ok := c["body"].(string); ok && cnt%5 == 0 && len(bt) > 0 && (bt[0] == '{' || bt[0] == '[') {
+			if ct, _ := c["ctype"].(string); strings.Contains(ct, "json") || strings.Contains(ct, "yaml") {
+				c["body"] = " " + bt
+			}
+		}
 		if sec, ok := c["sec"].(c13jm); ok && sec["reqs"] != nil && cnt%2 == 0 {
 			ns := c13jm{}
 			for k, v := range sec {
@@ -694,12 +700,10 @@ func genC13(ctx *hx.Ctx, emit0 func(hx.Case)) {
 		if r.Chance(3) {
 			ct = "text/plain"
 		} else if r.Chance(30) {
-			// media types without a body encoder (YAML) only with composition-free schemas: whether a default was set inside
-			// a discarded candidate copy (which makes the re-encoding run, and fail) is not modelled; with an encoder an
-			// unnecessary re-encoding is tolerated. Under a YAML media type only JSON texts are sent.
+			// Under a YAML media type only JSON texts are sent.
 			ct = hx.Pick(r, headers)
 			bt, isText := body.(string)
-			if isYAML(ct) && (c13HasComb(schema) || !isText || !json.Valid([]byte(bt))) {
+			if isYAML(ct) && (!isText || !json.Valid([]byte(bt))) {
 				ct = hx.Pick(r, headers[:15])
 			}
 			content := []any{c13jm{"key": hx.Pick(r, []string{"application/json", "application/*", "*/*", "application/problem+json", ct}), "schema": schema}}
